@@ -293,6 +293,14 @@ def cases(tier):
         for outcome in ("none", "clean", "error"):
             cs.append(Case("%s-%s" % (cls.__name__, outcome), h_response,
                            {"idx": i, "outcome": outcome}, install=_install_enums))
+    # two responses of the same class in one process with independent bytes (memoised decoding)
+    cheap = ("Response", "NumericResponse", "YesNoResponse", "VoltageResponse", "QueryFadeTimeAndRateResponse",
+             "QueryFailureStatusResponse", "NumericResponseMask", "FastFadeTimeResponse", "OutputLevelResponse",
+             "QueryInstanceStatusResponse", "QueryEventSchemeResponse", "QueryAssignedColourResponse")
+    for i, cls in enumerate(response_classes()):
+        if cls.__name__ in cheap:       # classes with < 10 paths per decode: the square stays small
+            cs.append(Case("%s-clean-twice" % cls.__name__, h_response, {"idx": i, "outcome": "clean"},
+                           install=_install_enums, repeat=2))
     bm = bitmap_classes()
     for i, cls in enumerate(bm):
         prevs = [(i + 1) % len(bm)] if tier == "quick" else [j for j in range(len(bm)) if j != i]
